@@ -129,6 +129,17 @@ class Ctx:
         self.replay = replay
         self.t0 = time.time()
         self.work = os.path.join(WORK, pid)
+        # two runs of the same check in the same work directory would wipe each other's files: the second one waits
+        os.makedirs(WORK, exist_ok=True)
+        import fcntl
+        self._lock = open(os.path.join(WORK, "%s.lock" % pid), "w")
+        self.t0 = time.time()
+        try:
+            fcntl.flock(self._lock, fcntl.LOCK_EX | fcntl.LOCK_NB)
+        except OSError:
+            print("[check] another run of %s is using %s: waiting for it to finish" % (pid, self.work), flush=True)
+            fcntl.flock(self._lock, fcntl.LOCK_EX)
+            self.t0 = time.time()
         shutil.rmtree(self.work, ignore_errors=True)
         os.makedirs(self.work, exist_ok=True)
         self._n = 0
